@@ -86,7 +86,7 @@ PROPS["C05"] = dict(
 )
 
 PROPS["C17"] = dict(
-    units=["fallback"],
+    units=["fallback", "builders"],
     title="Fallback never replaces a success and handles exactly the errors it should",
     level_text="Deductive proof (Verus) on the whole real body of Fallback::call (and new/clone/poll_ready): exactly one inner call with the unchanged request; an inner success is returned unchanged and no strategy "
                "closure or backup service is invoked; an inner error the predicate refuses is returned unchanged as Inner(e); an accepted error yields exactly what the configured strategy specifies for this request and "
@@ -174,7 +174,8 @@ PROPS["C11"] = dict(
                "fresh channel and touches no other key; complete/cancel free exactly that key; the result is sent on the channel registered under its own key, cancel sends nothing), CoalesceService::call (a waiter makes no inner call; "
                "the leader makes exactly one, with the request, and owns the key the extractor returns), CoalesceFuture::poll (leader: completes its key exactly once with a clone of the inner result and returns that result; "
                "pending keeps the registration; waiter touches neither inner service nor map) and its Drop (a dropped leader frees its key without sending; a completed one does not cancel).",
-    level_note="Known finding: a synchronous panic of inner.call() in the leader leaves the key registered (obligation ledger). 'key in map iff exactly one live leader holds it' is the induction over these contracts (meta-argument). "
+    level_note="Obligation ledger: the registration duty is held by an RAII guard (Registration, then the future; both Drops under contract) at every point that may panic or be cancelled (repaired by a fix: commit). "
+               "'key in map iff exactly one live leader holds it' is the induction over these contracts (meta-argument). "
                "hashbrown::HashMap read as std HashMap; parking_lot Mutex sections atomic; tokio broadcast contract assumed.",
     technique="contract-based deductive verification (Verus): abstract-map contracts on the in-flight registry + obligation ledger on call/poll/drop",
     design_ref="§6 C11",
@@ -199,7 +200,7 @@ PROPS["C10"] = dict(
 )
 
 PROPS["C06"] = dict(
-    units=["timelimiter"],
+    units=["timelimiter", "builders"],
     title="Time limiter resolves every call by its deadline",
     level_text="Deductive proof (Verus) on the real body of TimeLimiter::call, RELATIVE TO ASSUMED TIMED CONTRACTS OF TOKIO'S TIMER: the duration handed to the timer is get_timeout evaluated on this request (fixed: the configured "
                "duration; per-request: what the function returns for this request), before the future is built and with no await before the timer is created; in cancel mode exactly one inner call with the unchanged request, "
